@@ -420,6 +420,8 @@ class _StatementCompiler(StatementVisitor, _Compiler):
                 with self.emitter.indent():
                     filename, line = stmt.src_loc
                     self.emitter.append(f"print(\"Coverage hit at \" {filename!r} \":{line}:\", {self.emit_format(stmt.message)})")
+            else:
+                self.emitter.append("pass")
         else:
             self.emitter.append(f"if not {self.rhs.sign(stmt.test)}:")
             with self.emitter.indent():
